@@ -581,9 +581,14 @@ func (g *bcProgGen) forLoop(ind, depth int, elTyp, rng string) {
 		if g.o.Classes["loopvar-shadow"] && g.rng.Intn(2) == 0 {
 			// the loop variable takes the name of a variable declared in the SAME scope as the loop: for the
 			// parser and the evaluator a fresh variable of the loop's own scope, for the compiler the same symbol
+			// (or, third form, of an OUTER scope: the loop variable then shadows it for the rest of the block)
 			cur := g.scopes[len(g.scopes)-1]
+			pool := cur.vars
+			if g.rng.Intn(3) == 0 {
+				pool = g.varsOf(elTyp)
+			}
 			var cands []*bcGvar
-			for _, v := range cur.vars {
+			for _, v := range pool {
 				if v.typ == elTyp && !v.ro && !strings.Contains(rng, v.name) {
 					cands = append(cands, v)
 				}
